@@ -84,7 +84,7 @@ type Option func(o *_Option)
 // UseEpoch : 设置创世时间
 func UseEpoch(t time.Time) Option {
 	return func(o *_Option) {
-		o.epoch = t.UnixNano() / int64(time.Millisecond)
+		o.epoch = t.UnixMilli()
 	}
 }
 
